@@ -254,6 +254,20 @@ def gen_design(rng, cfg, tier="quick", **kw):
         ast = gencomb.gen_combinator_design(rng, cfg, tier)
         if ast is not None:
             return ast
+    if cfg.get("templates", True) and rng.random() < 0.25:
+        ast = gen_template_design(rng, cfg, tier)
+        if cfg.get("combinators") and rng.random() < 0.5:
+            # the classic use of Repeat: a Stroop-like block repeated to a trial count that may leave a partial repetition
+            b = ast["block"]
+            fb = {f["id"]: f for f in ast["factors"]}
+            size = 1
+            for c in b["crossing"]:
+                size *= sum(_weights(fb[c]))
+            inner_cons = [c for c in b["constraints"] if c["kind"] != "mintrials"]
+            b["constraints"] = inner_cons
+            n = size * rng.choice([1, 2, 2]) + rng.choice([0, 0, 1, 2, size - 1])
+            ast = {"factors": ast["factors"], "block": {"kind": "repeat", "block": b, "constraints": [{"id": "rm", "kind": "mintrials", "n": max(1, min(n, cfg.get("max_T", 8) + 2))}]}}
+        return ast
     return gen_cross_design(rng, cfg, tier, **kw)
 
 
@@ -310,3 +324,71 @@ def add_continuous(rng, ast, nmax=2, with_constraint=True):
                                    "pred": rng.choice([{"op": "sum_lt", "c": rng.choice([1000.0, 50.0])}, {"op": "sum_gt", "c": rng.choice([-1000.0, -50.0])},
                                                        {"op": "sum_lt", "c": rng.choice([1000.0, 3.0])}])})
     return ast
+
+
+# ---------------------------------------------------------------------------
+# template designs: the shapes SweetPea's documentation and users actually write (Stroop-like)
+
+COLORS = ["red", "blue", "green"]
+
+
+def gen_template_design(rng, cfg, tier="quick", smgen_friendly=False):
+    """color x word with a within-trial 'congruent' factor, optionally a transition factor, level and derived-level
+    weights, crossings that mix basic and derived factors, MinimumTrials, and a few constraints."""
+    nc = rng.choice([2, 2, 3])
+    nw = rng.choice([2, 2, 3]) if not smgen_friendly else nc
+    cw = [1] * nc
+    ww = [1] * nw
+    if rng.random() < 0.3:
+        cw[rng.randrange(nc)] = 2
+    if rng.random() < 0.2:
+        ww[rng.randrange(nw)] = 2
+    color = {"id": "f0", "kind": "basic", "name": "color", "levels": [[COLORS[i], cw[i]] for i in range(nc)]}
+    word = {"id": "f1", "kind": "basic", "name": "word", "levels": [[COLORS[i], ww[i]] for i in range(nw)]}
+    factors = [color, word]
+    con_rows = [[COLORS[i], COLORS[i]] for i in range(min(nc, nw))]
+    inc_rows = [[COLORS[i], COLORS[j]] for i in range(nc) for j in range(nw) if i != j]
+    dw = rng.choice([1, 1, 2, 3])
+    congruent = {"id": "d0", "kind": "derived", "name": "congruent", "window": {"kind": "within", "width": 1, "stride": 1, "start": None},
+                 "args": ["f0", "f1"],
+                 "levels": [{"name": "yes", "weight": dw, "table": con_rows},
+                            ({"name": "no", "weight": rng.choice([1, 1, 2]), "else": True} if rng.random() < 0.5 else
+                             {"name": "no", "weight": rng.choice([1, 1, 2]), "table": inc_rows})]}
+    factors.append(congruent)
+    has_tr = rng.random() < 0.4
+    if has_tr:
+        src = rng.choice([color, word])
+        names = [n for n, _ in src["levels"]]
+        rep_rows = [[[a, a]] for a in names]
+        sw_rows = [[[a, b]] for a in names for b in names if a != b]
+        factors.append({"id": "d1", "kind": "derived", "name": "repeat", "window": {"kind": "transition", "width": 2, "stride": 1, "start": 1},
+                        "args": [src["id"]], "levels": [{"name": "rep", "weight": 1, "table": rep_rows}, {"name": "sw", "weight": 1, "table": sw_rows}]})
+    ids = [f["id"] for f in factors]
+    options = [["f0", "f1"], ["f0", "d0"], ["d0"], ["f0"], ["f1", "d0"]]
+    if has_tr:
+        options += [["d1"], ["f0", "d1"], ["d0", "d1"]]
+    crossing = rng.choice(options)
+    fb = {f["id"]: f for f in factors}
+    size = 1
+    for c in crossing:
+        size *= sum(_weights(fb[c]))
+    if size > cfg.get("max_cross", 6) + 3:
+        crossing = ["d0"] if rng.random() < 0.5 else ["f0"]
+        size = sum(_weights(fb[crossing[0]]))
+    cons = []
+    if not smgen_friendly:
+        for i in range(rng.choice([0, 0, 1, 1, 2])):
+            kind = rng.choice(["atmost", "atmost", "exactlyk", "atleast", "exactlyrow", "pin", "exclude"])
+            f = rng.choice(factors)
+            lv = rng.choice(f["levels"])
+            lvn = lv[0] if f["kind"] == "basic" else lv["name"]
+            c = {"id": "c%d" % i, "kind": kind, "target": [f["id"], lvn], "spelling": rng.choice(["tuple", "level"])}
+            if kind == "pin":
+                c["index"] = rng.choice([0, 1, -1, -size, size - 1])
+            elif kind != "exclude":
+                c["k"] = rng.randint(1, 3)
+            cons.append(c)
+    if rng.random() < 0.35:
+        cons.append({"id": "cm", "kind": "mintrials", "n": rng.randint(max(1, size - 1), min(cfg.get("max_T", 8) + 1, 2 * size + 1))})
+    rcc = not any(c["kind"] == "exclude" for c in cons)
+    return {"factors": factors, "block": {"kind": "cross", "design": ids, "crossing": crossing, "constraints": cons, "rcc": rcc}}
